@@ -25,7 +25,11 @@ STRENGTHENED = {
     "C11_8": "last reported AT4 mode free for set-point requests", "C12_7": "one callback in both roles, withdrawn from one", "C12_8": "unsubscribe while the handler is suspended in a held-up write",
     "C13_8": "byte-identical frames in a row (same packet id)", "C14_7": "reconnection in the middle of group silence", "C14_8": "unanswered refresh followed by another loss",
     "C15_7": "init() again while the old connect is still in flight", "C15_8": "closing the transport takes 50 ms", "C16_8": "eleventh request through every public API call",
-    "C17_7": "free to/from addresses on unknown frames", "C18_7": "second search() on the same discoverer", "C19_8": "unsolicited report interleaved in the handshake of both consoles", "C15_6": "shutdown racing a handshake answer at loop-turn granularity (also exposed KF-C15-2)",
+    "C17_7": "free to/from addresses on unknown frames",
+    "C09_9": "second init() while the slow first connect is still pending",
+    "C01_9": "three held messages and a send while their flush is held up in drain()", "C08_9": "ten commands held for the dead link when a heartbeat falls due",
+    "C15_9": "close() while two connection attempts are pending after a failed first write", "C16_9": "all eleven sends inside a slow connection attempt", "C12_9": "subscribers given as bound methods",
+    "C17_9": "ability records longer than known through the socket (also caught by C05 as it stood)", "C18_9": "unicast search answered from another source address", "C18_7": "second search() on the same discoverer", "C19_8": "unsolicited report interleaved in the handshake of both consoles", "C15_6": "shutdown racing a handshake answer at loop-turn granularity (also exposed KF-C15-2)",
 }
 rows = []
 for name in sorted(os.listdir('/verif/seeded')):
